@@ -216,6 +216,9 @@ func solveAll(obls []*Obligation, dir string, secs int, workers int, all bool) [
 			if o.Timeout > 0 && o.Timeout > t {
 				t = o.Timeout
 			}
+			if o.MaxSecs > 0 && o.MaxSecs < t {
+				t = o.MaxSecs
+			}
 			if o.Probe {
 				t = 3
 				if all {
